@@ -81,6 +81,9 @@ func NewCryptoKey(factory securememory.SecretFactory, created int64, revoked boo
 
 	sec, err := factory.New(key)
 	if err != nil {
+		// the factory only wipes the source once it has taken a copy: don't leave the plaintext key behind
+		MemClr(key)
+
 		return nil, err
 	}
 
